@@ -10,6 +10,7 @@ import json
 import os
 import shutil
 import subprocess
+import time
 import xml.etree.ElementTree as ET
 from pathlib import Path
 
@@ -20,15 +21,41 @@ _counter = itertools.count()
 
 
 class Project:
-    def __init__(self, files: dict, with_vp=True):
+    """bytecode=True (default): the sessions write and use byte-code caches like a user's do.  A cache entry is
+    keyed by (whole seconds of the source's mtime, size), and the harness runs sessions a few hundred
+    milliseconds apart, so it keeps a logical clock: files start far in the past, and every file a session
+    (or the harness) *re-times* moves 10 s forward.  A file whose content was changed while its mtime was
+    deliberately kept is left alone - then the next session really runs the stale byte code."""
+
+    def __init__(self, files: dict, with_vp=True, bytecode=True):
         self.dir = common.tmp_root() / f"proj{os.getpid()}_{next(_counter)}"
         if self.dir.exists():
             shutil.rmtree(self.dir)
         self.dir.mkdir(parents=True)
+        self.bytecode = bytecode
+        self._clock = time.time() - 1_000_000
         inproc.write_project(self.dir, files, with_vp=with_vp)
+        if bytecode:
+            self.retime(self.py_mtimes(), everything=True)
 
     def write(self, files):
-        inproc.write_project(self.dir, files, with_vp=False)
+        if self.bytecode:
+            # an editor only touches the files it changes
+            files = {k: v for k, v in files.items() if not (self.dir / k).exists() or (self.dir / k).read_bytes() != (v if isinstance(v, bytes) else v.encode("utf-8"))}
+            before = self.py_mtimes()
+            inproc.write_project(self.dir, files, with_vp=False)
+            self.retime(before)
+        else:
+            inproc.write_project(self.dir, files, with_vp=False)
+
+    def py_mtimes(self):
+        return {p: p.stat().st_mtime_ns for p in self.dir.rglob("*.py") if "__pycache__" not in str(p)}
+
+    def retime(self, before, everything=False):
+        for p, m in self.py_mtimes().items():
+            if everything or before.get(p) != m:
+                self._clock += 10
+                os.utime(p, (self._clock, self._clock))
 
     def snapshot(self):
         """relative path -> bytes for every file of the project (caches and harness files excluded)"""
@@ -65,6 +92,10 @@ def run_session(proj: Project, args=(), env=None, stdin=None, timeout=120, hashs
     if env:
         extra.update(env)
     e = common.child_env(extra, hashseed=hashseed)
+    mt0 = None
+    if getattr(proj, "bytecode", False):
+        e.pop("PYTHONDONTWRITEBYTECODE", None)
+        mt0 = proj.py_mtimes()
     cmd = [common.PY, "-m", "pytest"] + ([] if cache else ["-p", "no:cacheprovider"]) + ["-p", "no:benchmark", "-p", "no:randomly", f"--junitxml={junit}", "-o", "junit_family=xunit1"]
     if plugin:
         cmd += ["-p", "ismon.verif_mon"]
@@ -85,6 +116,8 @@ def run_session(proj: Project, args=(), env=None, stdin=None, timeout=120, hashs
         r.stdout = (ex.stdout or b"").decode("utf-8", "replace")
         r.stderr = (ex.stderr or b"").decode("utf-8", "replace")
         r.timeout = True
+    if mt0 is not None:
+        proj.retime(mt0)
     r.cmd = cmd
     r.before = before
     r.after = proj.snapshot()
